@@ -7,7 +7,7 @@ pid = sys.argv[1]
 # optional second argument: round number (round 2 worktrees are /tmp/wt2-<PID>, stored as <PID>-3..5)
 rnd = int(sys.argv[2]) if len(sys.argv) > 2 else 1
 wt = ("/tmp/wt-" if rnd == 1 else "/tmp/wt%d-" % rnd) + pid
-koff = {1: 0, 2: 2, 3: 5, 4: 7, 5: 9, 6: 11, 7: 13}[rnd]
+koff = {1: 0, 2: 2, 3: 5, 4: 7, 5: 9, 6: 11, 7: 13, 8: 15}[rnd]
 out = wt + "/out"
 env = dict(os.environ, CARGO_NET_OFFLINE="true")
 def sh(cmd, **kw):
